@@ -1,0 +1,172 @@
+//go:build verif
+
+package pppoe
+
+// Verification hooks for property C04 (authentication gate / session ownership).
+// Accessors and an in-memory rawSocket only; compiled in only with -tags verif.
+
+import (
+	"context"
+	"errors"
+	"net"
+	"sort"
+	"sync"
+	"time"
+
+	"go.uber.org/zap"
+)
+
+// VerifC04Socket is an in-memory rawSocket. Frames are handed to the server's receiveLoop one
+// at a time; Push returns when the loop has finished handling the frame and is waiting for the
+// next one. Frames the server sends are captured.
+type VerifC04Socket struct {
+	in    chan []byte
+	ready chan struct{}
+	mu    sync.Mutex
+	cond  *sync.Cond
+	sent  [][]byte
+}
+
+func verifC04NewSocket() *VerifC04Socket {
+	s := &VerifC04Socket{in: make(chan []byte), ready: make(chan struct{})}
+	s.cond = sync.NewCond(&s.mu)
+	return s
+}
+
+func (s *VerifC04Socket) open(iface string, etherType uint16) error { return nil }
+func (s *VerifC04Socket) close() error                              { return nil }
+
+func (s *VerifC04Socket) recv(buf []byte) (int, error) {
+	s.ready <- struct{}{}
+	f, ok := <-s.in
+	if !ok {
+		return 0, errors.New("closed")
+	}
+	return copy(buf, f), nil
+}
+
+func (s *VerifC04Socket) send(iface string, dstMAC net.HardwareAddr, etherType uint16, data []byte) error {
+	c := make([]byte, len(data))
+	copy(c, data)
+	s.mu.Lock()
+	s.sent = append(s.sent, c)
+	s.cond.Broadcast()
+	s.mu.Unlock()
+	return nil
+}
+
+// WaitReady blocks until receiveLoop waits for its first frame.
+func (s *VerifC04Socket) WaitReady() { <-s.ready }
+
+// Push delivers one Ethernet frame and returns once receiveLoop asks for the next frame.
+func (s *VerifC04Socket) Push(frame []byte) {
+	s.in <- frame
+	<-s.ready
+}
+
+// Shutdown wakes the loop with a receive error (cancel the loop's context first).
+func (s *VerifC04Socket) Shutdown() { close(s.in) }
+
+// SentCount returns the number of captured frames.
+func (s *VerifC04Socket) SentCount() int {
+	s.mu.Lock()
+	defer s.mu.Unlock()
+	return len(s.sent)
+}
+
+// WaitSent waits until at least n frames were captured (true) or d elapsed (false).
+func (s *VerifC04Socket) WaitSent(n int, d time.Duration) bool {
+	deadline := time.Now().Add(d)
+	t := time.AfterFunc(d, func() { s.mu.Lock(); s.cond.Broadcast(); s.mu.Unlock() })
+	defer t.Stop()
+	s.mu.Lock()
+	defer s.mu.Unlock()
+	for len(s.sent) < n {
+		if !time.Now().Before(deadline) {
+			return false
+		}
+		s.cond.Wait()
+	}
+	return true
+}
+
+// Sent returns copies of the captured frames from index from on.
+func (s *VerifC04Socket) Sent(from int) [][]byte {
+	s.mu.Lock()
+	defer s.mu.Unlock()
+	out := make([][]byte, 0, len(s.sent)-from)
+	for _, f := range s.sent[from:] {
+		out = append(out, append([]byte(nil), f...))
+	}
+	return out
+}
+
+// VerifC04NewServer builds a Server on the in-memory socket with the given server MAC.
+func VerifC04NewServer(cfg ServerConfig, mac net.HardwareAddr, logger *zap.Logger) (*Server, *VerifC04Socket, error) {
+	srv, err := NewServerWithInterface(cfg, logger, &net.Interface{Name: cfg.Interface, HardwareAddr: mac})
+	if err != nil {
+		return nil, nil, err
+	}
+	sock := verifC04NewSocket()
+	srv.socket = sock
+	return srv, sock, nil
+}
+
+// VerifC04Run runs the production receive loop on the installed socket until ctx is cancelled.
+func (s *Server) VerifC04Run(ctx context.Context) { s.receiveLoop(ctx) }
+
+// VerifC04Session is the projection of one Session record.
+type VerifC04Session struct {
+	ID            uint16
+	ClientMAC     net.HardwareAddr
+	State         int
+	Authenticated bool
+	ClientIP      net.IP
+	LCPIdentifier uint8
+	PacketsIn     uint64
+	PacketsOut    uint64
+	SessionID     string
+}
+
+// VerifC04Snap is the projection of the session table and the address pool.
+type VerifC04Snap struct {
+	Sessions  []VerifC04Session // sorted by ID
+	MACIndex  map[string]uint16
+	HasPool   bool
+	Available []net.IP
+	Allocated map[string]net.IP
+}
+
+// VerifC04Snapshot reads the session table, the MAC index and the client pool.
+func (s *Server) VerifC04Snapshot() VerifC04Snap {
+	var snap VerifC04Snap
+	m := s.sessions
+	m.mu.RLock()
+	for _, se := range m.sessions {
+		se.mu.RLock()
+		snap.Sessions = append(snap.Sessions, VerifC04Session{
+			ID: se.ID, ClientMAC: append(net.HardwareAddr(nil), se.ClientMAC...), State: int(se.State),
+			Authenticated: se.Authenticated, ClientIP: append(net.IP(nil), se.ClientIP...),
+			LCPIdentifier: se.LCPIdentifier, PacketsIn: se.PacketsIn, PacketsOut: se.PacketsOut,
+			SessionID: se.SessionID,
+		})
+		se.mu.RUnlock()
+	}
+	snap.MACIndex = make(map[string]uint16, len(m.macToSession))
+	for k, v := range m.macToSession {
+		snap.MACIndex[k] = v
+	}
+	m.mu.RUnlock()
+	sort.Slice(snap.Sessions, func(i, j int) bool { return snap.Sessions[i].ID < snap.Sessions[j].ID })
+	if p := s.clientIPPool; p != nil {
+		snap.HasPool = true
+		for _, ip := range p.available {
+			snap.Available = append(snap.Available, append(net.IP(nil), ip...))
+		}
+		snap.Allocated = make(map[string]net.IP, len(p.allocated))
+		for k, v := range p.allocated {
+			snap.Allocated[k] = append(net.IP(nil), v...)
+		}
+	}
+	return snap
+}
